@@ -1,5 +1,7 @@
 import Tickit.Model.WinInput
+import Tickit.Model.WinInputTerm
 import Tickit.Gen.WinInputCfg
+import Tickit.Gen.InputXlate
 import Tickit.Driver.Common
 /-
   Engine `input` (C14).  Operations and observation format: see harness/input.c.
@@ -11,6 +13,10 @@ open Tickit Tickit.Driver Tickit.WinTree Tickit.WinInput
 
 /-- Which repairs are present in the working tree (extracted from src/window.c). -/
 def cfg : Cfg := Tickit.Gen.WinInputCfg.cfg
+
+/-- The shape of `got_key` (src/term.c) in the working tree, as the C20 extractor reads it. -/
+def xcfg : InputXlate.Cfg :=
+  { dropUnknownMouse := Tickit.Gen.InputXlate.dropUnknownMouse, pushLoops := Tickit.Gen.InputXlate.pushLoops }
 
 /-! ### printing -/
 
@@ -67,9 +73,15 @@ def parseEntry (s : String) : Option Entry :=
   match s.splitOn "," with
   | r :: acts => do
     let ret ← if r = "1" then some true else if r = "0" then some false else none
-    let as ← acts.mapM parseAction
-    pure { ret := ret, actions := as }
+    let unbind := acts.head? = some "!"
+    let as ← (if unbind then acts.drop 1 else acts).mapM parseAction
+    pure { ret := ret, actions := as, unbind := unbind }
   | [] => none
+
+/-- `k` / `m`, with `o` for `TICKIT_BIND_ONESHOT`. -/
+def parseKind (k : String) : Option (Kind × Bool) :=
+  if k = "k" then some (.key, false) else if k = "m" then some (.mouse, false)
+  else if k = "ko" then some (.key, true) else if k = "mo" then some (.mouse, true) else none
 
 /-! ### the engine -/
 
@@ -87,6 +99,8 @@ structure DSt where
   started : Bool := false
   dead : Option String := none        -- the model reached `ub` / ran out of fuel earlier in this history
   drag : Drag := {}                   -- the specification's own press memory and drag state
+  held : Nat := 0                     -- model: `tt->mouse_buttons_held`
+  sheld : List Nat := []              -- specification: the set of buttons held (pressed or dragged, not released since)
 
 def finishRes (d : DSt) (r : Res St) (pre : List String := []) : DSt × String :=
   match r with
@@ -125,11 +139,11 @@ def modelStep (d : DSt) (ts : List String) : DSt × String :=
       | .ub w => ({ d with dead := some w }, s!"ub:{w}")
     | _ => (d, "bad-op")
   | "bind" :: w :: k :: es =>
-    match w.toNat?, (if k = "k" then some Kind.key else if k = "m" then some Kind.mouse else none), es.mapM parseEntry with
-    | some w, some k, some es =>
+    match w.toNat?, parseKind k, es.mapM parseEntry with
+    | some w, some (k, oneshot), some es =>
       if es.isEmpty then (d, "bad-op") else
       if !isAlive st.tree w then (d, obsLine ["skip"] st.tree) else
-      let (st, idx) := addBinding st w k es
+      let (st, idx) := addBinding st w k es oneshot
       ({ d with st := st }, obsLine [s!"b{idx}"] st.tree)
     | _, _, _ => (d, "bad-op")
   | ["act", a] =>
@@ -152,6 +166,15 @@ def modelStep (d : DSt) (ts : List String) : DSt × String :=
     match ints? [t, b, l, c, m] with
     | some [t, b, l, c, m] => finishOut d (emitMouse cfg st { type := t, button := b, line := l, col := c, mod := m })
     | _ => (d, "bad-op")
+  | ["x10", code, l, c] =>
+    match code.toNat?, l.toNat?, c.toNat? with
+    | some code, some l, some c =>
+      if code ≥ 96 ∨ l ≥ 94 ∨ c ≥ 94 then (d, "bad-op") else
+      match pushX10 cfg xcfg { st := st, held := d.held } code l c with
+      | .ok ts => ({ d with st := { ts.st with log := [] }, held := ts.held }, obsLine (logItems ts.st.log) ts.st.tree)
+      | .ub w => ({ d with dead := some w }, s!"ub:{w}")
+      | .fuel => ({ d with dead := some "fuel" }, "fuel")
+    | _, _, _ => (d, "bad-op")
   | _ => (d, "bad-op")
 
 /-! ### the executable specification, evaluated on the implementation's observation
@@ -295,6 +318,7 @@ def checkCall (m : Mon) (what : String) (origin : Id) (absL absC : Int) (button 
   | some (bi, b) =>
     let e := b.entries.getD c.entry { ret := false }
     let m := if entryIndex b ≠ c.entry ∨ e.ret ≠ c.ret then m.fail s!"harness did not follow the behaviour table of window {c.win} handler {c.idx}" else m
+    let m := if b.gone then m.fail s!"{what}: handler {c.idx} of window {c.win} ran although it is no longer bound (a one-shot binding that has fired, or one that unbound itself)" else m
     let t := st.tree
     -- the offer to a window is the run of its handlers: eligibility is judged when the offer begins
     let m := if !blockStart ∨ visibleChain t (treeFuel t) c.win then m
@@ -313,7 +337,7 @@ def checkCall (m : Mon) (what : String) (origin : Id) (absL absC : Int) (button 
     let m := match mod with
       | some md => if c.ev.mod ≠ md then m.fail s!"window {c.win} was given modifiers {c.ev.mod}, expected {md}" else m
       | none => m
-    let st := { st with binds := st.binds.setIfInBounds bi { b with count := b.count + 1 } }
+    let st := { st with binds := st.binds.setIfInBounds bi b.fired }
     -- a reference dropped by this handler that was the last one destroys the window at once (its `D` item follows
     -- before the next call): later actions of the same entry see the tree without it
     let goneNow (w : Id) : Bool := following.any fun it => match it with | .destroyed x => x = w | _ => false
@@ -327,14 +351,22 @@ def isCall : Item → Bool
   | .call _ => true
   | _ => false
 
-def nBindings (st : St) (kind : Kind) (win : Id) : Nat := (bindingsOf st.binds kind win).length
+/-- The handlers of `win` that are (still) bound, by their index, in binding order. -/
+def liveIdxs (st : St) (kind : Kind) (win : Id) : List Nat :=
+  (bindingsOf st.binds kind win).filterMap fun i =>
+    match st.binds[i]? with
+    | some b => if b.gone then none else some b.idx
+    | none => none
+
+/-- The bound handler of the window that follows handler `idx`. -/
+def nextLive (st : St) (kind : Kind) (win : Id) (idx : Nat) : Option Nat := (liveIdxs st kind win).find? (· > idx)
 
 /-- One dispatch (`_handle_key` / `_handle_mouse` from `origin`): returns the monitor and the claiming window. -/
 def checkSegment (m : Mon) (kind : Kind) (what : String) (origin : Option Id) (absL absC : Int) (button mod : Option Int)
     (items : List Item) (exempt : List Id := []) : Mon × Option Id :=
   let t0 := m.cur.tree
   let f0 := treeFuel t0
-  let hasB (w : Id) : Bool := nBindings m.cur kind w > 0
+  let hasB (w : Id) : Bool := !(liveIdxs m.cur kind w).isEmpty
   let refOrder : List Id := match origin with
     | none => []
     | some o =>
@@ -357,17 +389,20 @@ def checkSegment (m : Mon) (kind : Kind) (what : String) (origin : Option Id) (a
     | .call c =>
       let m := if claimer.isSome then m.fail s!"{what}: a handler of window {c.win} ran after window {claimer.getD 0} had claimed the event" else m
       -- binding order inside a window's block
+      -- every bound handler of the window, in binding order (handlers no longer bound are passed over)
+      let first := (liveIdxs m.cur kind c.win).head?
       let m := match prev with
         | some p =>
-          if p.win = c.win ∧ p.idx + 1 < nBindings m.cur kind p.win then
-            (if c.idx = p.idx + 1 then m else m.fail s!"{what}: handlers of window {c.win} not run in binding order")
-          else if p.idx + 1 < nBindings m.cur kind p.win then
-            m.fail s!"{what}: window {p.win} was offered the event but not all its handlers ran (none had claimed)"
-          else if c.idx ≠ 0 then m.fail s!"{what}: handlers of window {c.win} did not start with the first binding"
-          else m
-        | none => if c.idx ≠ 0 then m.fail s!"{what}: handlers of window {c.win} did not start with the first binding" else m
+          match nextLive m.cur kind p.win p.idx with
+          | some n =>
+            if p.win = c.win then
+              (if c.idx = n then m else m.fail s!"{what}: handlers of window {c.win} not run in binding order (handler {c.idx} after handler {p.idx}, expected {n})")
+            else m.fail s!"{what}: window {p.win} was offered the event but not all its handlers ran (none had claimed; handler {n} is still bound)"
+          | none =>
+            if some c.idx ≠ first then m.fail s!"{what}: handlers of window {c.win} did not start with the first bound handler" else m
+        | none => if some c.idx ≠ first then m.fail s!"{what}: handlers of window {c.win} did not start with the first bound handler" else m
       let blockStart := match prev with
-        | some p => !(p.win = c.win ∧ p.idx + 1 < nBindings m.cur kind p.win)
+        | some p => !(p.win = c.win ∧ (nextLive m.cur kind p.win p.idx).isSome)
         | none => true
       -- all handlers of one offer see the same event
       let m := match prev with
@@ -380,7 +415,7 @@ def checkSegment (m : Mon) (kind : Kind) (what : String) (origin : Option Id) (a
     | _ => acc
   let (m, seen, prev, claimer) := items.zipIdx.foldl step (m, [], none, none)
   let m := match prev with
-    | some p => if !p.ret ∧ p.idx + 1 < nBindings m.cur kind p.win then
+    | some p => if !p.ret ∧ (nextLive m.cur kind p.win p.idx).isSome then
         m.fail s!"{what}: window {p.win} was offered the event but not all its handlers ran (none had claimed)" else m
     | none => m
   -- order of the unaffected windows
@@ -399,16 +434,20 @@ def isCallOfType (ty : Int) : Item → Bool
   | .call c => c.ev.type = ty
   | _ => false
 
-/-- Split off the leading items that belong to a dispatch of event type `ty` (its calls and the `D` items among them). -/
+/-- Split off the leading items that belong to a dispatch of event type `ty` (its calls and the `D` items among them).
+    All handlers of one dispatch are given the same button: a call with another button than the first call of the
+    segment begins the next dispatch (two RELEASE events in a row, when a button-less X10 release ends two held buttons). -/
 def takeSegment (ty : Int) (items : List Item) : List Item × List Item :=
-  let rec go : List Item → List Item → List Item × List Item
-    | [], acc => (acc.reverse, [])
-    | it :: rest, acc =>
+  let rec go : List Item → List Item → Option Int → List Item × List Item
+    | [], acc, _ => (acc.reverse, [])
+    | it :: rest, acc, btn =>
       match it with
-      | .call c => if c.ev.type = ty then go rest (it :: acc) else (acc.reverse, it :: rest)
+      | .call c =>
+        if c.ev.type = ty ∧ (btn.isNone ∨ btn = some c.ev.button) then go rest (it :: acc) (some c.ev.button)
+        else (acc.reverse, it :: rest)
       | .unhandled => (acc.reverse, it :: rest)
-      | _ => go rest (it :: acc)
-  go items []
+      | _ => go rest (it :: acc) btn
+  go items [] none
 
 def specKey (st : St) (ev : Ev) (items : List Item) : String :=
   let calls := items.filter (fun i => match i with | .unhandled => false | _ => true)
@@ -420,8 +459,9 @@ def specKey (st : St) (ev : Ev) (items : List Item) : String :=
   let m := if unh = claimer.isNone then m else m.fail "the event must reach the terminal's next binding exactly when no window claimed it"
   m.err
 
-def specMouse (st : St) (dr : Drag) (ev : Ev) (items : List Item) : String × Drag :=
-  let m : Mon := { cur := st }
+/-- One mouse event as `on_term_mouse` sees it: the monitor afterwards, the drag state, and the items left over
+    (those of later events of the same operation). -/
+def specMouseM (m : Mon) (dr : Drag) (ev : Ev) (items : List Item) : Mon × Drag × List Item :=
   let live (m : Mon) (o : Option Id) : Option Id := match o with
     | some w => if isAlive m.cur.tree w then some w else none
     | none => none
@@ -456,18 +496,45 @@ def specMouse (st : St) (dr : Drag) (ev : Ev) (items : List Item) : String × Dr
       let (m, _) := checkSegment m .mouse "drag_consistent(DRAG_OUTSIDE)" origin ev.line ev.col (some ev.button) none seg (detached m dr.source)
       (m, rest)
     else (m, rest)
+  -- the terminal's next binding hears of the event exactly when no window claimed it
+  -- (a `T` that follows a claimed event is left over: it belongs to the next event of the operation, or to none)
+  if handled.isSome then (m, dr, rest) else
+  match rest with
+  | .unhandled :: r => (m, dr, r)
+  | r => (m.fail "the event must reach the terminal's next binding exactly when no window claimed it", dr, r)
+
+/-- Nothing but what the events account for may have been delivered. -/
+def noMore (m : Mon) (rest : List Item) : Mon :=
   let m := match rest.find? isCall with
-    | some (.call c) => m.fail s!"drag_consistent: unexpected event of type {c.ev.type} delivered to window {c.win} (out of sequence)"
+    | some (.call c) => m.fail s!"drag_consistent: unexpected event of type {c.ev.type} (button {c.ev.button}) delivered to window {c.win} (out of sequence)"
     | _ => m
-  let unh := rest.any (fun i => match i with | .unhandled => true | _ => false)
-  let m := if unh = handled.isNone then m else m.fail "the event must reach the terminal's next binding exactly when no window claimed it"
-  (m.err, dr)
+  if rest.any (fun i => match i with | .unhandled => true | _ => false) then
+    m.fail "the event must reach the terminal's next binding exactly when no window claimed it (once)" else m
+
+def specMouse (st : St) (dr : Drag) (ev : Ev) (items : List Item) : String × Drag :=
+  let (m, dr, rest) := specMouseM { cur := st } dr ev items
+  ((noMore m rest).err, dr)
+
+/-- A mouse report that arrived as X10 bytes.  The reference: the events the report stands for, with the set of
+    buttons held (pressed or dragged and not released since) naming the button(s) of a button-less release
+    (`InputXlate.Spec.keyEvents`, the specification of C20); each of them is then judged as a mouse event of its own,
+    in order — so DRAG_DROP / DRAG_STOP carry the button of the press that began the drag, and every report reaches the
+    window under the pointer exactly once. -/
+def specX10 (st : St) (dr : Drag) (sheld : List Nat) (code line col : Nat) (items : List Item) : String × Drag × List Nat :=
+  let (sheld, evs) := InputXlate.Spec.keyEvents sheld (x10Key code line col)
+  let (m, dr, rest) := evs.foldl (fun (acc : Mon × Drag × List Item) e =>
+      match e with
+      | .mouse type button l c mods =>
+        let (m, dr, items) := acc
+        specMouseM m dr { type := type, button := button, line := l, col := c, mod := mods } items
+      | _ => acc) (({ cur := st } : Mon), dr, items)
+  ((noMore m rest).err, dr, sheld)
 
 def step (d : DSt) (ts : List String) (impl : String) : DSt × String × String :=
   let (d', m) := modelStep d ts
   if crashed impl then (d', m, "mutation_safe: the implementation crashed (sanitizer report, abort or signal)") else
   match ts with
-  | ["new", _, _] => ({ d' with drag := {} }, m, "")
+  | ["new", _, _] => ({ d' with drag := {}, sheld := [] }, m, "")
   | _ =>
   if d.dead.isSome ∨ !d.started then (d', m, "") else
   let items := ((impl.splitOn " |").headD "").splitOn " " |>.filter (· ≠ "") |>.map parseItem
@@ -482,6 +549,13 @@ def step (d : DSt) (ts : List String) (impl : String) : DSt × String × String 
       let (e, dr) := specMouse d.st d.drag { type := t, button := b, line := l, col := c, mod := md } items
       ({ d' with drag := dr }, m, e)
     | _ => (d', m, "")
+  | ["x10", code, l, c] =>
+    match code.toNat?, l.toNat?, c.toNat? with
+    | some code, some l, some c =>
+      if code ≥ 96 ∨ l ≥ 94 ∨ c ≥ 94 then (d', m, "") else
+      let (e, dr, sheld) := specX10 d.st d.drag d.sheld code l c items
+      ({ d' with drag := dr, sheld := sheld }, m, e)
+    | _, _, _ => (d', m, "")
   | _ => (d', m, "")
 
 def engine : Engine := { σ := DSt, init := {}, step := step }
